@@ -288,6 +288,24 @@ func (e *Engine) applyContract(st *State, fr *Frame, fn *ssa.Function, c *Contra
 			e.addObligation(st, fr, "callinv", rel+":"+inv.label, inv.t, "type invariant of argument "+inv.label)
 		}
 	}
+	for _, grp := range c.NoAlias {
+		var ptrs []*PtrVal
+		for _, n := range grp {
+			for i, p := range fn.Params {
+				if p.Name() == n {
+					if pv, ok := args[i].(*PtrVal); ok && !pv.null {
+						ptrs = append(ptrs, pv)
+					}
+				}
+			}
+		}
+		for i := range ptrs {
+			for j := i + 1; j < len(ptrs); j++ {
+				same := e.valuesEqual(st, ptrs[i], ptrs[j])
+				e.addObligation(st, fr, "noalias", rel+":"+strings.Join(grp, ","), mkNot(same), "arguments "+strings.Join(grp, ", ")+" must not alias")
+			}
+		}
+	}
 	for i, r := range c.Requires {
 		g := env.boolTerm(r.Expr)
 		e.addObligation(st, fr, "requires", fmt.Sprintf("%s:%d", rel, i), g, r.Text)
@@ -707,6 +725,13 @@ func (e *Engine) assumeEnsures(st *State, env *SpecEnv, x ast.Expr, results []Va
 					st.addSubst(lt, rt)
 					return
 				}
+				// `fresh-polynomial == lift(residue)`: the canonical representative is *defined* by the callee's
+				// outputs; rewrite lift(..) so that products of representatives expand over the output limbs
+				if rt.Op == "app" && rt.Name == "lift" && lt.Sort == SInt && lt.Op == "poly" && onlyFreshVars(lt) && !occurs(rt, lt) {
+					st.assume(mkEq(lt, rt))
+					st.addSubst(rt, lt)
+					return
+				}
 				st.assume(mkEq(lt, rt))
 				return
 			}
@@ -808,6 +833,19 @@ func definable(t *Term) bool {
 		}
 	}
 	return false
+}
+
+func onlyFreshVars(t *Term) bool {
+	ok := true
+	t.walk(func(u *Term) {
+		if u.Op == "var" && !strings.Contains(u.Name, "!") {
+			ok = false
+		}
+		if u.Op == "app" || u.Op == "select" {
+			ok = false
+		}
+	})
+	return ok
 }
 
 func occurs(a, in *Term) bool {
@@ -1048,6 +1086,9 @@ func (e *Engine) checkCuts(st *State, fr *Frame) {
 			continue
 		}
 		ready := true
+		if a.After != "" && st.binds[a.After] < a.AfterN {
+			ready = false
+		}
 		for _, id := range freeIdents(a.Expr) {
 			if _, ok := st.names[id]; ok && !st.weak[id] {
 				continue
@@ -1062,6 +1103,9 @@ func (e *Engine) checkCuts(st *State, fr *Frame) {
 			break
 		}
 		if !ready {
+			if a.Kind == "assert" {
+				continue
+			}
 			// cuts are ordered
 			return
 		}
@@ -1069,6 +1113,12 @@ func (e *Engine) checkCuts(st *State, fr *Frame) {
 		env := e.specEnv(st, fr.old, fr.fn, fr.contract, nil)
 		env.vars = fr.params
 		g := env.boolTerm(a.Expr)
+		if a.Kind == "assert" {
+			// intermediate lemma: proved here, then available (nothing is forgotten)
+			e.addObligation(st, fr, "assert", a.Name, g, a.Text)
+			st.assume(g)
+			continue
+		}
 		e.addObligation(st, fr, "cut", a.Name, g, a.Text)
 		// forget everything but entry assumptions and cut lemmas
 		keep := st.hyps[:st.entryH:st.entryH]
